@@ -494,6 +494,10 @@ func (t *ftr) fxTranslated(name string, d *doneFn, c *ast.CallExpr) *fxRes {
 			lead = append(lead, "st.skipped")
 			continue
 		}
+		if c, isFixed := t.sp.fixed[xp.name]; !found && isFixed {
+			lead = append(lead, c)
+			continue
+		}
 		if !found {
 			t.fail("call of %s needs parameter %s, which %s does not have", name, xp.name, t.sp.name)
 			return nil
@@ -538,10 +542,13 @@ func (t *ftr) fxTranslated(name string, d *doneFn, c *ast.CallExpr) *fxRes {
 	if !ok {
 		return nil
 	}
-	if p {
+	if p && (d.spec.fx != "" || t.sp.fx != "") {
 		t.fail("call of %s: an argument can panic", name)
 		return nil
 	}
+	// (p, for a callee and a caller without file-system / state effects: the arguments are pure values
+	// or panic; Go evaluates them before the call, the nested actions `(← …)` are run before it too,
+	// and every panic is the same `none`)
 	fr := &fxRes{call: d.ns() + leanDefName(name) + " " + strings.Join(append(lead, a...), " "), partial: d.partial}
 	if d.spec.fx == "rw" {
 		fr.outs = append(fr.outs, "fs")
@@ -737,7 +744,7 @@ func (t *ftr) ioExpr(e ast.Expr, hint *ty) (ex, bool) {
 				return ex{fmt.Sprintf("(%d : Int)", v), tInt, false}, true
 			}
 		}
-		if id, ok := e.X.(*ast.Ident); ok && id.Name == "colors" && t.lookup("colors") == nil && t.hasExtra("nocolor") && allPkgs["colors"] != nil {
+		if id, ok := e.X.(*ast.Ident); ok && id.Name == "colors" && t.lookup("colors") == nil && (t.hasExtra("nocolor") || t.sp.fixed["nocolor"] == "false") && allPkgs["colors"] != nil {
 			// a function that carries the colour mode: the real escape sequence
 			if v, ok := allPkgs["colors"].values[e.Sel.Name]; ok {
 				if str, ok := allPkgs["colors"].constString(v); ok {
